@@ -145,6 +145,11 @@ def cases(tier, seed):
             pp["nch"] = 3          # the smallest case with a second hidden chain end
         out.append({"kind": "run", "w": "topostress", "seed": seed * 50101 + i, "ff": ff, "opts": o, "extra_atoms": False,
                     "p": pp})
+    # --ligand runs: peptide + MOL2 ligand + waters, some of them with atoms no force field knows (four-site water
+    # EPW, a stray hetero atom): whatever is not written must be reported
+    nl = 18 if tier == "quick" else 1500
+    out += [{"kind": "ligand", "seed": seed * 61001 + i, "ff": ["AMBER", "PARSE", "CHARMM"][i % 3], "w": "ligand",
+             "opts": []} for i in range(nl)]
     nt = 36 if tier == "quick" else 5000
     for i in range(nt):
         out.append({"kind": "titr", "w": "synth", "seed": seed * 3001 + i, "ff": common.FFS[i % 6],
@@ -294,9 +299,69 @@ def check(res, spec, m, r, opts, titr_by_ord=None):
         res.nt(spec["ff"], tuple(spec["opts"]), spec["seed"])
 
 
+def run_ligand(spec, res):
+    """Conservation clause on --ligand runs: every atom of the final model is written or reported unassigned."""
+    from ..gen import mol2gen
+    from ..gen import structures as S
+    from .c16 import het_residue
+    import numpy as np
+    rng = random.Random(spec["seed"])
+    mol = mol2gen.random_molecule(rng, 1, 5)
+    mol["atoms"] = [a for a in mol["atoms"] if not a["name"].endswith(("X0", "X1"))]     # no salts here
+    # ligand atom names that cannot collide with water atom names
+    for a in mol["atoms"]:
+        if a["name"] in ("O", "H1", "H2"):
+            a["name"] = "L" + a["name"]
+    lig_text = mol2gen.write(mol)
+    pep = S.peptide(S.random_sequence(rng, rng.randint(3, 5), pool=["ALA", "GLY", "SER", "LEU", "LYS", "ASP", "THR"]), rng)
+    c0 = S.centroid(pep)
+    wat = [S.water(c0 + np.array([0, -12.0 - 4 * k, 0]), rng, spread=1.0, with_h=2) for k in range(rng.randint(1, 3))]
+    # a four-site water as written by simulation packages, and sometimes a water with a stray atom
+    w4 = S.water(c0 + np.array([0, 14.0, 0]), rng, spread=1.0, with_h=2)
+    w4["atoms"] = w4["atoms"] + [("EPW", w4["atoms"][0][1] + np.array([0.1, 0.1, 0.0]))]
+    wat.append(w4)
+    entries = [{"id": "A", "start": 1, "residues": pep},
+               {"id": rng.choice(["A", "L"]), "start": 301, "residues": [het_residue(mol, "LIG", c0 + np.array([25.0, 0, 0]))]},
+               {"id": "W", "start": 401, "residues": wat}]
+    items, truth = S.assemble(entries)
+    text = pdbfmt.to_text(items)
+    opts = [f"--ff={spec['ff']}", "--ligand={dir}/lig.mol2"] + rng.choice([[], ["--noopt"]])
+    r = pipeline.run(text, opts, extra_files={"lig.mol2": lig_text}, workname="c03")
+    res.count("runs")
+    if not r.ok:
+        res.count("runs_failed")
+        res.note(f"ligand run failed: {type(r.exc).__name__} {str(r.exc)[:60]}")
+        return
+    res.count("runs_ok")
+    res.count("ligand_runs")
+    missed = {id(a) for a in (r.missed or [])}
+    pq = pipeline.parse_pqr(r.pqr_text)
+    written_keys = Counter((ln["name"], ln["resi"]) for ln in pq)
+    lost = []
+    for rr in r.bio.residues:
+        for a in rr.atoms:
+            res.count("model_atoms_traced")
+            if id(a) in missed:
+                continue
+            if written_keys.get((a.name, a.res_seq), 0) > 0:
+                written_keys[(a.name, a.res_seq)] -= 1
+                continue
+            lost.append((str(rr), a.name))
+    res.nt("ligand", spec["ff"], tuple(opts[2:]), len(mol["atoms"]))
+    res.cell("ligand", spec["ff"])
+    if lost:
+        res.violate("model/residue-atoms-neither-written-nor-reported/ligand-run", f"{len(lost)} atoms of the final "
+                    f"model are neither written nor reported unassigned, e.g. {lost[:4]}", ff=spec["ff"], opts=opts,
+                    seed=spec["seed"])
+    res.sample = {"kind": "ligand", "ff": spec["ff"], "lines": len(pq), "reported_unassigned": len(missed)}
+
+
 def run_case(spec):
     install()
     res = Res()
+    if spec["kind"] == "ligand":
+        run_ligand(spec, res)
+        return res
     m = workload.materialise(spec)
     rng = random.Random(spec["seed"] + 11)
     if spec.get("extra_atoms"):
